@@ -3,18 +3,57 @@
 //! History mode, one line = one history on several live DSU values:
 //!   `h <n0> <op>*`   with ops  `u c a b` (un) | `p c v` (par) | `k c a b` (check) | `s c v` (size)
 //!                              | `r c n` (reset) | `c c` (clone copy c, appended as a new copy)
+//!                              | `f c d m` (a new copy made by `clone_from`: a scratch value = clone of copy d,
+//!                                 reset to m-1 elements when m > 0, then `scratch.clone_from(&copy c)`; the scratch
+//!                                 value is appended as a new copy: it must be indistinguishable from `c c`)
 //! Output: per call its return value `T`/`F`/`N<k>`/`U`, followed by `[ p.. | sz.. ]` (hooked arrays of
-//! the touched copy) when they differ from the last arrays shown for that copy; a panic prints `P` and
-//! ends the history; otherwise `E` and the arrays of every copy follow.
+//! the touched copy) when they differ from the last arrays shown for that copy; a panicking call prints `P`
+//! (followed by the arrays of the touched copy if the call changed them before panicking) and the history goes
+//! on with the value the call left behind, as in a caller that catches the unwind; at the end `E` and the arrays
+//! of every copy.
+//! Cross-checks on entry points that have no return value of their own (only when the type implements Debug;
+//! the executor builds without it): the `{:?}` and `{:#?}` renderings after `reset(n)` equal those of
+//! `DSU::new(n)`; those of a clone / of the target of `clone_from` equal those of the source.  A failed
+//! cross-check replaces the return value by a token starting with `X`, which no model accepts.
 //!
 //! Big mode (implementation-only search): `big <family> <n> <seed>` builds one DSU of n elements with an
 //! adversarial union order and prints `B <maxdepth> <maxallowed> <classes> <ok>`, where ok = every
 //! element's parent chain is no longer than log2 of the size recorded at its root, root sizes are the
 //! true class cardinalities (counted through the parent array) and agree with a naive labelling where
-//! that is affordable.
+//! that is affordable; lookups of the deepest elements (run on a thread with a 256 KiB stack) return the root,
+//! leave the whole old path pointing at the root and the forest passes the audit again; `size`, `check`,
+//! `reset` followed by a second build and clones are compared with the naive labelling.
 use rlib_dsu::DSU;
 use std::fmt::Write as _;
 use vh::{guarded, p, Sm};
+
+/// optional Debug rendering ("autoref specialisation": the bounded impl on `Wrap<T>` is preferred, the
+/// unbounded one on `&Wrap<T>` is the fallback when the type has no Debug impl)
+struct Wrap<'a, T>(&'a T);
+trait DbgYes {
+    fn dbg(&self) -> Option<(String, String)>;
+}
+#[allow(dead_code)]
+trait DbgNo {
+    fn dbg(&self) -> Option<(String, String)>;
+}
+impl<'a, T: std::fmt::Debug> DbgYes for Wrap<'a, T> {
+    fn dbg(&self) -> Option<(String, String)> {
+        Some((format!("{:?}", self.0), format!("{:#?}", self.0)))
+    }
+}
+impl<'a, 'b, T> DbgNo for &'b Wrap<'a, T> {
+    fn dbg(&self) -> Option<(String, String)> {
+        None
+    }
+}
+fn dbg_of(d: &DSU) -> Option<(String, String)> {
+    (&Wrap(d)).dbg()
+}
+/// do the two values render identically (vacuously true without a Debug impl)?
+fn same_dbg(a: &DSU, b: &DSU) -> bool {
+    dbg_of(a) == dbg_of(b)
+}
 
 fn arrays(d: &DSU) -> (Vec<usize>, Vec<usize>) {
     let (a, b) = d.verif_raw();
@@ -46,6 +85,7 @@ fn history(t: &[&str]) -> String {
             "u" | "k" => (2, c),
             "p" | "s" | "r" => (1, c),
             "c" => (0, copies.len()),
+            "f" => (2, copies.len()),
             _ => {
                 eprintln!("harness: unknown op {}", kind);
                 std::process::exit(3)
@@ -61,33 +101,43 @@ fn history(t: &[&str]) -> String {
             "s" => format!("N{}", copies[c].size(a)),
             "r" => {
                 copies[c].reset(a);
-                "U".to_string()
+                if same_dbg(&copies[c], &DSU::new(a)) {
+                    "U".to_string()
+                } else {
+                    "Xdebug-after-reset-differs-from-new".to_string()
+                }
             }
-            _ => {
+            "c" => {
                 let d = copies[c].clone();
+                let ok = same_dbg(&d, &copies[c]);
                 copies.push(d);
                 last.push(None);
-                "U".to_string()
+                (if ok { "U" } else { "Xdebug-of-clone-differs-from-source" }).to_string()
+            }
+            _ => {
+                let mut d = copies[a].clone();
+                if b > 0 {
+                    d.reset(b - 1);
+                }
+                d.clone_from(&copies[c]);
+                let ok = same_dbg(&d, &copies[c]);
+                copies.push(d);
+                last.push(None);
+                (if ok { "U" } else { "Xdebug-after-clone_from-differs-from-source" }).to_string()
             }
         });
+        if !out.is_empty() {
+            out.push(' ');
+        }
         match r {
-            None => {
-                if !out.is_empty() {
-                    out.push(' ');
-                }
-                out.push('P');
-                return out;
-            }
-            Some(s) => {
-                if !out.is_empty() {
-                    out.push(' ');
-                }
-                out.push_str(&s);
-                let cur = arrays(&copies[touched]);
-                if last[touched].as_ref() != Some(&cur) {
-                    show(&mut out, &cur);
-                    last[touched] = Some(cur);
-                }
+            None => out.push('P'),
+            Some(s) => out.push_str(&s),
+        }
+        if touched < copies.len() {
+            let cur = arrays(&copies[touched]);
+            if last[touched].as_ref() != Some(&cur) {
+                show(&mut out, &cur);
+                last[touched] = Some(cur);
             }
         }
     }
@@ -195,6 +245,76 @@ fn audit(d: &DSU, naive: &Naive) -> (u32, u32, usize, bool) {
     (maxd, maxallowed, classes, ok)
 }
 
+/// `d.par(v)` on a thread with a small stack (the stack clause: log-depth recursion needs next to nothing)
+fn par_small_stack(d: &mut DSU, v: usize) -> usize {
+    std::thread::scope(|sc| {
+        std::thread::Builder::new()
+            .stack_size(256 << 10)
+            .spawn_scoped(sc, || d.par(v))
+            .expect("spawn")
+            .join()
+            .unwrap_or(usize::MAX)
+    })
+}
+
+/// lookups of the `cnt` deepest elements: each must return the root, leave every node of the old path pointing
+/// at the root, and the forest must pass the audit afterwards; `which` selects par / size / check
+fn deep_lookups(d: &mut DSU, naive: &Naive, cnt: usize, ok: &mut bool) {
+    let n = d.verif_raw().0.len();
+    let (dep, root) = match depths(d.verif_raw().0) {
+        Some(x) => x,
+        None => {
+            *ok = false;
+            return;
+        }
+    };
+    let mut order: Vec<usize> = (0..n).collect();
+    order.sort_by_key(|&v| std::cmp::Reverse(dep[v]));
+    for (j, &v) in order.iter().take(cnt).enumerate() {
+        // the path as it is now (earlier lookups may have compressed parts of it)
+        let mut path = Vec::new();
+        let mut x = v;
+        loop {
+            let px = d.verif_raw().0[x];
+            if px == x || path.len() > n {
+                break;
+            }
+            path.push(x);
+            x = px;
+        }
+        let want = root[v];
+        if x != want {
+            *ok = false;
+        }
+        match j % 3 {
+            0 => {
+                if par_small_stack(d, v) != want {
+                    *ok = false;
+                }
+            }
+            1 => {
+                if d.size(v) != naive.members[naive.lab[v]].len() {
+                    *ok = false;
+                }
+            }
+            _ => {
+                let w = order[(j * 7 + 1) % n];
+                if d.check(v, w) != naive.same(v, w) {
+                    *ok = false;
+                }
+            }
+        }
+        let pa = d.verif_raw().0;
+        if path.iter().any(|&y| pa[y] != want) || pa[want] != want {
+            *ok = false;
+        }
+    }
+    let (_, _, _, o) = audit(d, naive);
+    if !o {
+        *ok = false;
+    }
+}
+
 fn big(t: &[&str]) -> String {
     let fam = t[1];
     let n: usize = p(t[2]);
@@ -222,6 +342,28 @@ fn big(t: &[&str]) -> String {
             worst.1 = ma;
         }
     };
+    // binomial trees: join roots of equal-size trees, never touching a non-root (no compression happens);
+    // audited after every level, where the depth bound is tight
+    let binomial = |d: &mut DSU, naive: &mut Naive, rev: bool, ok: &mut bool, worst: &mut (u32, u32)| {
+        let n = naive.lab.len();
+        let mut roots: Vec<usize> = (0..n).collect();
+        while roots.len() > 1 {
+            let mut next = Vec::with_capacity(roots.len() / 2 + 1);
+            let mut j = 0;
+            while j + 1 < roots.len() {
+                let (a, b) = if !rev { (roots[j], roots[j + 1]) } else { (roots[j + 1], roots[j]) };
+                do_un(d, naive, a, b, ok);
+                let pa = d.verif_raw().0;
+                next.push(if pa[a] == a { a } else { b });
+                j += 2;
+            }
+            if j < roots.len() {
+                next.push(roots[j]);
+            }
+            roots = next;
+            checkpoint(d, naive, ok, worst);
+        }
+    };
     match fam {
         // un(i, i+1): every argument is a root or a child of the root; without union by size this is a path
         "chain_up" => {
@@ -245,25 +387,59 @@ fn big(t: &[&str]) -> String {
                 }
             }
         }
-        // binomial trees: join roots of equal-size trees, never touching a non-root (no compression happens);
-        // audited after every level, where the depth bound is tight
-        "binomial" | "binomial_rev" => {
-            let mut roots: Vec<usize> = (0..n).collect();
-            while roots.len() > 1 {
-                let mut next = Vec::with_capacity(roots.len() / 2 + 1);
-                let mut j = 0;
-                while j + 1 < roots.len() {
-                    let (a, b) = if fam == "binomial" { (roots[j], roots[j + 1]) } else { (roots[j + 1], roots[j]) };
-                    do_un(&mut d, &mut naive, a, b, &mut ok);
-                    let pa = d.verif_raw().0;
-                    next.push(if pa[a] == a { a } else { b });
-                    j += 2;
+        "binomial" => binomial(&mut d, &mut naive, false, &mut ok, &mut worst),
+        "binomial_rev" => binomial(&mut d, &mut naive, true, &mut ok, &mut worst),
+        // a deep forest, a clone of it, lookups of the deepest elements on the clone only (the original must not
+        // move), then reset to the same / a smaller / a larger size and a second build in the other direction
+        "binomial_reset" => {
+            binomial(&mut d, &mut naive, false, &mut ok, &mut worst);
+            let before = arrays(&d);
+            let mut e = d.clone();
+            if arrays(&e) != before || !same_dbg(&e, &d) {
+                ok = false;
+            }
+            deep_lookups(&mut e, &naive, 64, &mut ok);
+            if arrays(&d) != before {
+                ok = false;
+            }
+            let mut f = DSU::new(n / 3);
+            f.clone_from(&e);
+            if arrays(&f) != arrays(&e) || !same_dbg(&f, &e) {
+                ok = false;
+            }
+            for (k, m) in [n, n / 2 + 1, n + n / 3 + 1].into_iter().enumerate() {
+                d.reset(m);
+                if arrays(&d) != arrays(&DSU::new(m)) || !same_dbg(&d, &DSU::new(m)) {
+                    ok = false;
                 }
-                if j < roots.len() {
-                    next.push(roots[j]);
+                naive = Naive::new(m);
+                binomial(&mut d, &mut naive, k % 2 == 0, &mut ok, &mut worst);
+                deep_lookups(&mut d, &naive, 16, &mut ok);
+            }
+        }
+        // n resets of one value to sizes 0..=40, each followed by a few unions and lookups compared with the naive
+        // labelling; audited every 1024 resets (anything that counts resets or calls must survive n of them)
+        "resets" => {
+            d = DSU::new(5);
+            for k in 0..n {
+                let m = (rng.next() % 41) as usize;
+                d.reset(m);
+                naive = Naive::new(m);
+                if m > 0 {
+                    for _ in 0..(rng.next() % 6) {
+                        let u = (rng.next() % m as u64) as usize;
+                        let v = (rng.next() % m as u64) as usize;
+                        do_un(&mut d, &mut naive, u, v, &mut ok);
+                    }
+                    let u = (rng.next() % m as u64) as usize;
+                    let v = (rng.next() % m as u64) as usize;
+                    if d.check(u, v) != naive.same(u, v) || d.size(u) != naive.members[naive.lab[u]].len() {
+                        ok = false;
+                    }
                 }
-                roots = next;
-                checkpoint(&d, &naive, &mut ok, &mut worst);
+                if k % 1024 == 0 {
+                    checkpoint(&d, &naive, &mut ok, &mut worst);
+                }
             }
         }
         // random unions with interleaved finds (path compression active)
@@ -275,15 +451,20 @@ fn big(t: &[&str]) -> String {
                 if n == 0 {
                     break;
                 }
-                match rng.next() % 4 {
+                match rng.next() % 5 {
                     0 => {
                         let r = d.par(u);
-                        if !naive.same(r, u) {
+                        if !naive.same(r, u) || d.verif_raw().0[r] != r || d.verif_raw().0[u] != r {
                             ok = false;
                         }
                     }
                     1 => {
                         if d.check(u, v) != naive.same(u, v) {
+                            ok = false;
+                        }
+                    }
+                    2 => {
+                        if d.size(u) != naive.members[naive.lab[u]].len() {
                             ok = false;
                         }
                     }
@@ -316,17 +497,10 @@ fn big(t: &[&str]) -> String {
     }
     checkpoint(&d, &naive, &mut ok, &mut worst);
     let (_, _, classes, _) = audit(&d, &naive);
-    // the deepest element can still be found (recursion depth = its chain length)
-    let (pa, _) = d.verif_raw();
-    if !ok {
-        // a forest that already violates the bound is not searched further (a deep chain would overflow the stack)
-    } else if let Some((dep, _)) = depths(pa) {
-        if let Some(v) = (0..n).max_by_key(|&v| dep[v]) {
-            let r = d.par(v);
-            if !naive.same(r, v) {
-                ok = false;
-            }
-        }
+    // the deepest elements can still be found (recursion depth = chain length), by par / size / check; a forest
+    // that already violates the bound is not searched further (a deep chain would overflow the stack)
+    if ok {
+        deep_lookups(&mut d, &naive, 48, &mut ok);
     }
     format!("B {} {} {} {}", worst.0, worst.1, classes, if ok { 1 } else { 0 })
 }
